@@ -38,14 +38,17 @@ def run(ctx):
         r.check('seal-dominates-closing-states', ok, ctx.site(D.PROCESS), built=why)
         # handshake: Close while waiting for OpenOk
         tbl = panics.handshake_transitions(ctx)
-        op = tbl['Open']
-        scr = D.script_of(op['events'], 0)
-        scr = [s.split(' > ')[-1] for s in scr]
+        op = tbl.get('Open', {'rows': []})
         want = ['io_loop::Inner::push_method(inner, 0, amq_protocol::protocol::connection::AMQPMethod::CloseOk(amq_protocol::protocol::connection::CloseOk{}))',
                 'io_loop::Inner::seal_writes(inner)']
-        i0 = scr.index(want[0]) if want[0] in scr else -1
-        r.check('handshake:closeok-seal-state', i0 >= 0 and scr[i0 + 1] == want[1] and scr[i0 + 2].startswith('self = io_loop::handshake_state::HandshakeState::ServerClosing('),
-                ctx.site('io_loop::handshake_state::HandshakeState::process', op['arm']), built=scr, expected=want + ['self = HandshakeState::ServerClosing(close)'])
+        closing = [x for x in op['rows'] if want[0] in x.effects]
+        okc = bool(closing)
+        for x in closing:
+            i0 = x.effects.index(want[0])
+            rest = [e for e in x.effects[i0 + 1:] if not e.startswith('let ')]
+            okc = okc and len(rest) >= 2 and rest[0] == want[1] and rest[1].startswith('self = io_loop::handshake_state::HandshakeState::ServerClosing(')
+        r.check('handshake:closeok-seal-state', okc, ctx.site('io_loop::handshake_state::HandshakeState::process'), built=[x.effects for x in closing],
+                expected=want + ['self = HandshakeState::ServerClosing(close)'])
         # the client's Close: appended whole, then sealed
         rows = P.table(ctx, 'io_loop::Inner::process_channel_message', ['self', 'channel_id', 'message'])
         cc = [x for x in rows if x.conds and x.conds[0][1] == 'io_loop::IoLoopMessage::ConnectionClose(_)']
